@@ -120,6 +120,16 @@ CHECKS = {
             'windows, nothing outside them.',
             'Values outside the enumerated windows are not covered (the property allows sampling there; sampling is outside this '
             'technique). Illegal-form lists are finite. Exactness oracles use Python int/Decimal arithmetic.', '3/C18'),
+    'C20': ('I', 'exhaustive enumeration of all handle lists up to a length bound over several MDIB contents, and of the full product of localization filter parameters over several stores, through the real consumer clients and provider services',
+            'All handle lists of length <= 2 (thorough 3) over a pool of 9-11 handles (two context-state handles, context descriptors, '
+            'metric, MDS of both MDS, VMD, system context, unknown - duplicates and mixed kinds arise by construction) are sent as '
+            'GetMdState and GetContextStates through the real consumer service clients over the loop-back transport, for 4 MDIB '
+            'contents x {single-MDS, two-MDS MDIB} x contextstates_in_getmdib in {T, F}; the returned multiset must equal a reference '
+            'selection computed from the provider tables by the BICEPS rules in the property. GetLocalizedText: 6 text stores x all '
+            '1600 combinations of Ref / Version / Lang / TextWidth / NumberOfLines; every returned text must satisfy every constraint, '
+            'the unconstrained query must return all texts of the latest version, GetSupportedLanguages the stored language set.',
+            'Constrained localization queries are checked for soundness only (as the property states); handle pool and stores as '
+            'listed in the evidence.', '3/C20'),
 }
 
 NOT_BUILT_REASON = 'check not built yet (work in progress; designed in DESIGN.md section 3)'
